@@ -812,7 +812,11 @@ func (c *Conn) SetStall(on bool) {
 	c.StallWrites = on
 	c.mu.Unlock()
 	if on {
+		c.net.S.Fault("transport-stall")
 		c.net.S.Logf("fault stall %s", c.Name())
+	} else {
+		// the transport drains again: a blocked writer goes on
+		c.wsignal()
 	}
 }
 
